@@ -147,4 +147,38 @@ def check_laziness(ctx):
                 "function": "shuffle_buffer", "ok": bad is None,
                 "evaluations": n_eval, "witness": bad,
                 "bound": "finite n<=30 and infinite sources, first 25 yields"})
+    # round_robin: the outer iterable (of iterables) is pulled only as far as
+    # the buffer needs - buffer_size, plus one per inner iterable used up
+    bad = None
+    n_eval = 0
+    for b in (1, 2, 3, 5, 8):
+        for inner_len in (1, 3):
+            n_eval += 1
+
+            class Outer:
+                pulled = 0
+
+                def __iter__(s):
+                    for k in range(1000):
+                        s.pulled += 1
+                        yield [(k, j) for j in range(inner_len)]
+            src = Outer()
+            yielded = 0
+            for _ in itertools.islice(round_robin(src, buffer_size=b), 25):
+                yielded += 1
+                if src.pulled > b + yielded // inner_len + 1:
+                    bad = {"buffer_size": b, "inner_length": inner_len,
+                           "outer_pulled": src.pulled, "yielded": yielded,
+                           "allowed": b + yielded // inner_len + 1}
+                    break
+            if bad:
+                break
+        if bad:
+            break
+    out.append({"check": "round_robin pulls <= buffer_size + (inner iterables "
+                "used up) + 1 of the outer iterable at every yield",
+                "function": "round_robin", "ok": bad is None,
+                "evaluations": n_eval, "witness": bad,
+                "bound": "1000 inner iterables of length 1 / 3, buffer sizes "
+                         "1..8, first 25 yields"})
     return out
